@@ -601,6 +601,9 @@ func runDeterminism(ids []string) int {
 	n := envInt("VERIF_DET_SEEDS", 200)
 	seed := uint64(envInt("VERIF_SEED", 1))
 	bad := 0
+	if len(ids) == 0 {
+		ids = []string{"C01", "C02", "C03", "C05", "C06", "C07", "C08", "C10", "C11", "C12", "C13", "C14", "C15", "C16", "C17", "C18", "C19", "C20"}
+	}
 	for _, id := range ids {
 		var idx []int
 		for i := 0; i < n; i++ {
